@@ -71,6 +71,7 @@ type verifC1213Suite struct {
 	snapmgrBaseTest
 	vNotDone int
 	vAbort   bool // a watchdog fired: stop generating
+	vSampled map[string]int
 }
 
 var _ = Suite(&verifC1213Suite{})
@@ -82,7 +83,8 @@ type vOp struct {
 	Kind       string      `json:"kind"`
 	Snap       string      `json:"snap,omitempty"`
 	Rev        int         `json:"rev,omitempty"`
-	Via        string      `json:"via,omitempty"` // refresh: "store" (refreshRevnos) or "revision" (RevisionOptions)
+	Via        string      `json:"via,omitempty"`       // refresh: "store" (refreshRevnos), "revision" (RevisionOptions), "all" (UpdateMany), "amend" (Update --amend of a sideloaded snap); local file: "path" (InstallPath), "path-many" (InstallPathMany), "path-update" (UpdatePathWithDeviceContext), "try" (TryPath)
+	PathMode   string      `json:"path_mode,omitempty"` // local file only: "asserted" (side info with snap-id and revision) or "unasserted" (name only: snapd picks the next x<N>; Rev is filled in from the result, x<N> is written as -N)
 	NotBlocked bool        `json:"not_blocked,omitempty"`
 	DevMode    bool        `json:"devmode,omitempty"`
 	Retain     interface{} `json:"retain,omitempty"` // nil=unset, int, string
@@ -98,9 +100,14 @@ type vSnapshot struct {
 	Current int
 	Active  bool
 	DevMode bool
+	TryMode bool
 	Block   []int
 	Raw     string
 }
+
+// vRevStr renders a revision number the way snapd does (local revisions are
+// negative numbers: x1 = -1).
+func vRevStr(n int) string { return snap.R(n).String() }
 
 func (v vSnapshot) index(rev int) int {
 	idx := -1
@@ -116,7 +123,10 @@ type vProfile struct {
 	prop string
 	// weights
 	wRefreshNew, wRefreshKept, wRevert, wRevertTo, wBadRevert, wRetain, wToggle, wProbe int
-	kernelEvery                                                                         int // every n-th history has the boot-participating kernel snap
+	// refreshes of an installed snap from a local file (C12 only): to a revision
+	// that is not kept yet (asserted or unasserted) / to an already kept one
+	wPathNew, wPathKept int
+	kernelEvery         int // every n-th history has the boot-participating kernel snap
 }
 
 type vSnapInfo struct {
@@ -143,8 +153,32 @@ type vHistory struct {
 	nb        map[string]map[int]bool // per snap: last revert away from rev was requested NotBlocked
 	snaps     []vSnapInfo
 	ops       []*vOp
-	dead      bool // a violation made the rest of the history meaningless
-	cont      int  // revisions are drawn from 1..maxRev
+	dead      bool              // a violation made the rest of the history meaningless
+	cont      int               // revisions are drawn from 1..maxRev
+	dirs      map[string]string // per snap: unpacked snap directory used as "the local file"
+}
+
+// snapDir returns an unpacked snap directory for the snap (made on first use;
+// mksquashfs is not available, and a directory is what `snap try` takes anyway).
+// The meta/snap.yaml agrees with what the package's fakes report for the
+// installed revisions (epoch 1*, kernel type for the model's kernel).
+func (h *vHistory) snapDir(si vSnapInfo) string {
+	if d, ok := h.dirs[si.name]; ok {
+		return d
+	}
+	d := h.c.MkDir()
+	h.c.Assert(os.Chmod(d, 0755), IsNil)
+	h.c.Assert(os.MkdirAll(filepath.Join(d, "meta"), 0755), IsNil)
+	yaml := "name: " + si.name + "\nversion: 1.0\nepoch: 1*\n"
+	if si.kernel {
+		yaml += "type: kernel\n"
+	}
+	h.c.Assert(os.WriteFile(filepath.Join(d, "meta", "snap.yaml"), []byte(yaml), 0644), IsNil)
+	if h.dirs == nil {
+		h.dirs = map[string]string{}
+	}
+	h.dirs[si.name] = d
+	return d
 }
 
 // reference rule for the retain value (statement: the setting, default 2 on
@@ -182,7 +216,7 @@ func (h *vHistory) snapshot(name string) vSnapshot {
 	if err != nil {
 		return vSnapshot{}
 	}
-	v := vSnapshot{Present: true, Current: snapst.Current.N, Active: snapst.Active, DevMode: snapst.DevMode}
+	v := vSnapshot{Present: true, Current: snapst.Current.N, Active: snapst.Active, DevMode: snapst.DevMode, TryMode: snapst.TryMode}
 	for _, rs := range snapst.Sequence.Revisions {
 		v.Seq = append(v.Seq, rs.Snap.Revision.N)
 	}
@@ -245,11 +279,11 @@ const vSettleWatchdog = 15 * time.Minute
 func vRevOfPath(p string) (name string, rev int, ok bool) {
 	// <SnapMountDir>/<name>/<rev>
 	base := filepath.Base(p)
-	n, err := strconv.Atoi(base)
-	if err != nil {
+	r, err := snap.ParseRevision(base) // "7" or "x3" (local revision, N = -3)
+	if err != nil || r.Unset() {
 		return "", 0, false
 	}
-	return filepath.Base(filepath.Dir(p)), n, true
+	return filepath.Base(filepath.Dir(p)), r.N, true
 }
 
 func vContains(l []int, x int) bool {
@@ -355,8 +389,46 @@ func (h *vHistory) setInUse(op *vOp) {
 	h.c.Assert(h.s.bl.SetBootVars(vars), IsNil)
 }
 
-// refresh issues Update (through the store or by explicit revision), settles
-// the change and evaluates the C12 oracle on it.
+// vIsPathVia: the refresh arrives as a local file (SnapSetup.SnapPath).
+func vIsPathVia(via string) bool {
+	return via == "path" || via == "path-many" || via == "path-update" || via == "try"
+}
+
+// requestPathRefresh asks for a refresh of an installed snap from a local file
+// through one of snapd's entry points for that.
+func (h *vHistory) requestPathRefresh(op *vOp, si vSnapInfo) ([]*state.TaskSet, error) {
+	st := h.s.state
+	dir := h.snapDir(si)
+	sideInfo := &snap.SideInfo{RealName: si.name}
+	if op.PathMode == "asserted" {
+		// full metadata: as after `snap ack` + `snap install ./file.snap`
+		sideInfo.SnapID = si.id
+		sideInfo.Revision = snap.R(op.Rev)
+	}
+	switch op.Via {
+	case "path":
+		ts, _, err := snapstate.InstallPath(st, sideInfo, dir, "", "", snapstate.Flags{}, nil)
+		return []*state.TaskSet{ts}, err
+	case "path-many":
+		// what the daemon uses for `snap install ./a.snap ./b.snap` (path update goal)
+		tss, err := snapstate.InstallPathMany(context.Background(), st, []*snap.SideInfo{sideInfo}, []string{dir}, h.s.user.ID, &snapstate.Flags{})
+		if err == nil && len(tss) != 1 {
+			err = fmt.Errorf("InstallPathMany gave %d task sets", len(tss))
+		}
+		return tss, err
+	case "path-update":
+		ts, err := snapstate.UpdatePathWithDeviceContext(st, sideInfo, dir, si.name, nil, h.s.user.ID, snapstate.Flags{}, nil, nil, "")
+		return []*state.TaskSet{ts}, err
+	case "try":
+		ts, err := snapstate.TryPath(st, si.name, dir, snapstate.Flags{})
+		return []*state.TaskSet{ts}, err
+	}
+	panic("unknown local-file entry point " + op.Via)
+}
+
+// refresh issues a refresh of an installed snap (Update through the store, by
+// explicit revision, refresh-all, --amend; or from a local file), settles the
+// change and evaluates the C12 oracle on it.
 func (h *vHistory) refresh(op *vOp) (done bool) {
 	st := h.s.state
 	si := h.info(op.Snap)
@@ -375,7 +447,16 @@ func (h *vHistory) refresh(op *vOp) (done bool) {
 	}
 	mark := h.opMark()
 	var tss []*state.TaskSet
-	if op.Via == "all" {
+	if vIsPathVia(op.Via) {
+		l, err := h.requestPathRefresh(op, si)
+		if err != nil {
+			op.Result = "error: " + err.Error()
+			h.chk.Count("refresh_request_errors", 1)
+			h.chk.Count("path_refresh_request_errors", 1)
+			return false
+		}
+		tss = l
+	} else if op.Via == "all" {
 		// refresh-all path (what auto-refresh and `snap refresh` use)
 		h.pinOthers(op.Snap)
 		names, l, err := snapstate.UpdateMany(context.Background(), st, nil, nil, h.s.user.ID, &snapstate.Flags{})
@@ -386,7 +467,9 @@ func (h *vHistory) refresh(op *vOp) (done bool) {
 		}
 		tss = l
 	} else {
-		ts, err := snapstate.Update(st, op.Snap, opts, h.s.user.ID, snapstate.Flags{})
+		// "amend": the current revision is a sideloaded one (no snap-id), the
+		// store revision is asked for as `snap refresh --amend --revision=N` does
+		ts, err := snapstate.Update(st, op.Snap, opts, h.s.user.ID, snapstate.Flags{Amend: op.Via == "amend"})
 		if err != nil {
 			op.Result = "error: " + err.Error()
 			h.chk.Count("refresh_request_errors", 1)
@@ -401,6 +484,11 @@ func (h *vHistory) refresh(op *vOp) (done bool) {
 	if chg.Status() != state.DoneStatus {
 		h.notDone()
 		return false
+	}
+	if op.PathMode == "unasserted" {
+		// snapd picked the revision (next x<N>): it is whatever became current;
+		// judgeRefresh checks that it is a fresh local revision
+		op.Rev = after.Current
 	}
 	// bookkeeping for C13's reference model: the target is current again
 	delete(h.nb[op.Snap], op.Rev)
@@ -472,11 +560,60 @@ func (h *vHistory) judgeRefresh(op *vOp, si vSnapInfo, before, after vSnapshot, 
 	if len(leftovers) > 0 {
 		chk.Count("refreshes_with_revert_leftovers", 1)
 	}
+	// "at or above the retain limit": the kept revisions up to the old current
+	// (later ones are revert leftovers and go anyway) plus the one being added
+	// exceed the setting, so the refresh has to discard for the added revision
+	atLimit := !kept && len(before.Seq)-len(leftovers)+1 > R
+	nLocal := 0
+	for _, r := range before.Seq {
+		if r < 0 {
+			nLocal++
+		}
+	}
+	if nLocal > 0 {
+		chk.Count("refreshes_with_local_revisions_in_sequence", 1)
+	}
+	chk.Max("max_local_revisions_in_sequence", nLocal)
+	if before.Current < 0 {
+		chk.Count("refreshes_from_local_current_revision", 1)
+	}
+	if before.TryMode {
+		chk.Count("refreshes_of_snap_in_try_mode", 1)
+	}
+	isPath := vIsPathVia(op.Via)
+	if isPath {
+		chk.Count("path_refreshes", 1)
+		chk.Count("path_refresh_"+op.PathMode, 1)
+		switch {
+		case T == before.Current:
+			chk.Count("path_refreshes_to_current_revision", 1)
+			chk.Count("path_refreshes_to_kept", 1)
+		case kept:
+			chk.Count("path_refreshes_to_kept", 1)
+		default:
+			chk.Count("path_refreshes_to_new", 1)
+			chk.Count("path_refreshes_to_new_"+op.PathMode, 1)
+		}
+		if atLimit {
+			chk.Count("path_refreshes_to_new_at_or_above_retain", 1)
+			chk.Count("path_refreshes_to_new_at_or_above_retain_"+op.PathMode, 1)
+			chk.Count("path_refreshes_to_new_at_or_above_retain_via_"+op.Via, 1)
+		}
+		if len(leftovers) > 0 {
+			chk.Count("path_refreshes_with_revert_leftovers", 1)
+		}
+		if len(op.InUse) > 0 {
+			chk.Count("path_refreshes_with_boot_in_use_answer", 1)
+		}
+	} else if atLimit {
+		chk.Count("store_refreshes_to_new_at_or_above_retain", 1)
+	}
 
 	w := func() map[string]interface{} {
 		return h.witness(op, map[string]interface{}{
 			"before": before.Seq, "before_current": before.Current, "after": after.Seq, "after_current": after.Current,
 			"retain_setting": h.retainVal, "retain_reference": R, "removed": removed, "in_use": op.InUse,
+			"local_revisions_are_negative": "x<N> is written as -N",
 		})
 	}
 	inUseClass := "none"
@@ -487,6 +624,11 @@ func (h *vHistory) judgeRefresh(op *vOp, si vSnapInfo, before, after vSnapshot, 
 	// (1) the new current revision is kept, current, and never discarded
 	if after.Current != T || !vContains(after.Seq, T) || vContains(removed, T) {
 		chk.Violation("C12:current-discarded-or-not-current", w())
+	}
+	if op.PathMode == "unasserted" && (T >= 0 || kept) {
+		// an unasserted local file always becomes a not-yet-kept local revision;
+		// anything else means the revision switched to is not the one installed
+		chk.Violation("C12:current-discarded-or-not-current:unasserted-target", w())
 	}
 	// (2) count
 	if !kept {
@@ -536,10 +678,23 @@ func (h *vHistory) judgeRefresh(op *vOp, si vSnapInfo, before, after vSnapshot, 
 		for _, r := range op.InUse {
 			inUsePos = append(inUsePos, before.index(r))
 		}
-		chk.Nontrivial(kit.Sig("refresh", kept, before.index(T), R, rk, len(before.Seq), oldCurIdx, len(removed), inUsePos, h.onClassic, op.Via))
+		chk.Nontrivial(kit.Sig("refresh", kept, before.index(T), R, rk, len(before.Seq), oldCurIdx, len(removed), inUsePos, h.onClassic, op.Via, op.PathMode))
+	}
+	// the kit keeps the first four samples: two store and two local-file refreshes
+	cls := "store"
+	if isPath {
+		cls = "path"
+	}
+	if h.s.vSampled == nil {
+		h.s.vSampled = map[string]int{}
+	}
+	h.s.vSampled[cls]++
+	if h.s.vSampled[cls] > 2 {
+		return
 	}
 	chk.Sample(map[string]interface{}{"snap": op.Snap, "before": before.Seq, "before_current": before.Current, "target": T,
-		"kept_target": kept, "retain_setting": h.retainVal, "retain": R, "in_use": op.InUse, "after": after.Seq, "removed": removed})
+		"kept_target": kept, "retain_setting": h.retainVal, "retain": R, "in_use": op.InUse, "after": after.Seq, "removed": removed,
+		"via": op.Via, "path_mode": op.PathMode})
 }
 
 // revert issues Revert/RevertToRevision. expectReject != "" means the statement
@@ -962,12 +1117,77 @@ func (h *vHistory) step(rnd vRand, forceGrow bool) {
 		return
 	}
 	ci := snp.index(snp.Current)
-	total := p.wRefreshNew + p.wRefreshKept + p.wRevert + p.wRevertTo + p.wBadRevert + p.wRetain + p.wToggle + p.wProbe
+	// the local-file classes come last so that a profile without them (C13)
+	// draws exactly the histories it drew before they existed
+	oldTotal := p.wRefreshNew + p.wRefreshKept + p.wRevert + p.wRevertTo + p.wBadRevert + p.wRetain + p.wToggle + p.wProbe
+	total := oldTotal + p.wPathNew + p.wPathKept
 	x := rnd.Intn(total)
 	if forceGrow {
 		x = 0
+		if p.wPathNew > 0 && rnd.Intn(3) == 0 {
+			x = oldTotal // grow with a local file
+		}
+	}
+	if x < p.wRefreshNew && snp.TryMode && p.wPathNew > 0 {
+		// a snap in try mode is invisible to the store side (no candidate, no
+		// --amend): its next new revision can only be another local file
+		x = oldTotal
 	}
 	switch {
+	case x >= oldTotal && x < oldTotal+p.wPathNew:
+		// refresh from a local file to a revision that is not kept yet
+		op := &vOp{Kind: "refresh", Snap: si.name, Via: "path", PathMode: "asserted"}
+		if !si.kernel && rnd.Intn(2) == 0 {
+			// (the model's signed kernel cannot be replaced by an unasserted one)
+			op.PathMode = "unasserted"
+		}
+		switch v := rnd.Intn(20); {
+		case v < 7:
+		case v < 11:
+			op.Via = "path-many"
+		case v < 15:
+			op.Via = "path-update"
+		default:
+			if op.PathMode == "unasserted" {
+				op.Via = "try"
+			}
+		}
+		if op.PathMode == "asserted" {
+			op.Rev = h.newRev(rnd, snp.Seq)
+		}
+		if si.kernel {
+			op.InUse = h.genInUse(rnd, snp)
+		}
+		h.do(op, func() { h.refresh(op) })
+		return
+	case x >= oldTotal+p.wPathNew:
+		// "refresh" from a local file whose (asserted) revision is already kept;
+		// now and then it is the current revision itself (reinstall)
+		var cands []int
+		for _, r := range snp.Seq {
+			if r > 0 && r != snp.Current {
+				cands = append(cands, r)
+			}
+		}
+		op := &vOp{Kind: "refresh", Snap: si.name, Via: "path", PathMode: "asserted"}
+		if snp.Current > 0 && (len(cands) == 0 || rnd.Intn(5) == 0) {
+			op.Rev = snp.Current
+		} else if len(cands) > 0 {
+			op.Rev = cands[rnd.Intn(len(cands))]
+			switch rnd.Intn(3) {
+			case 0:
+				op.Via = "path-many"
+			case 1:
+				op.Via = "path-update"
+			}
+		} else {
+			return
+		}
+		if si.kernel {
+			op.InUse = h.genInUse(rnd, snp)
+		}
+		h.do(op, func() { h.refresh(op) })
+		return
 	case x < p.wRefreshNew:
 		op := &vOp{Kind: "refresh", Snap: si.name, Rev: h.newRev(rnd, snp.Seq), Via: "store"}
 		switch rnd.Intn(4) {
@@ -975,6 +1195,11 @@ func (h *vHistory) step(rnd vRand, forceGrow bool) {
 			op.Via = "revision"
 		case 1:
 			op.Via = "all"
+		}
+		if snp.Current < 0 {
+			// sideloaded current revision (no snap-id): the store only answers
+			// for it when asked to amend
+			op.Via = "amend"
 		}
 		if si.kernel {
 			op.InUse = h.genInUse(rnd, snp)
@@ -987,9 +1212,12 @@ func (h *vHistory) step(rnd vRand, forceGrow bool) {
 		}
 		var cands []int
 		for _, r := range snp.Seq {
-			if r != snp.Current {
+			if r != snp.Current && !(snp.TryMode && p.wPathNew > 0) {
 				cands = append(cands, r)
 			}
+		}
+		if len(cands) == 0 {
+			return // try mode: Update does not consider the snap at all
 		}
 		op := &vOp{Kind: "refresh", Snap: si.name, Rev: cands[rnd.Intn(len(cands))], Via: "revision"}
 		if si.kernel {
@@ -1185,7 +1413,8 @@ func (s *verifC1213Suite) TestVerifC12(c *C) {
 	chk.Rule("cases are settled refreshes inside generated histories (install, refresh to a new revision via the store or by revision, refresh to a kept revision, revert/revert-to leaving later revisions, refresh.retain rewritten between refreshes as unset / int 2..20 / legacy string, on classic and on core defaults; every 4th history drives the model's kernel snap with a generated boot in-use answer in the mock bootloader). A refresh is non-trivial when the garbage collection had something to decide (sequence at the limit, revert leftovers, boot answer, or discards observed); distinct = distinct (target kept?, target index, retain, retain kind, sequence length, current index, #discards, in-use positions, classic?, via)")
 	vAssumptions(chk)
 	chk.Assume("boot in-use answers are produced by programming snap_kernel / snap_try_kernel of the mock bootloader before a kernel refresh; they may name any kept revision (current, older, a revert leftover) or a revision that is not kept")
-	prof := &vProfile{prop: "C12", wRefreshNew: 42, wRefreshKept: 14, wRevert: 10, wRevertTo: 10, wBadRevert: 0, wRetain: 20, wToggle: 0, wProbe: 0, kernelEvery: 4}
+	prof := &vProfile{prop: "C12", wRefreshNew: 42, wRefreshKept: 14, wRevert: 10, wRevertTo: 10, wBadRevert: 0, wRetain: 20, wToggle: 0, wProbe: 0, kernelEvery: 4,
+		wPathNew: 24, wPathKept: 6}
 	s.runHistories(c, chk, prof, kit.Scale(14, 60))
 	if kit.OnlyCase() >= 0 {
 		chk.MinDistinct(0) // replay of one history: floors do not apply
